@@ -1,306 +1,13 @@
-// C08 driver: executes async_scope scenarios (v2 / v1 / v0 scopes) on the real code with controlled threads.
-// modes: guided (TLC behaviours), dfs (bounded-preemption enumeration), random (seeded).
-//
-// Work items are harness leaf senders whose completion is triggered by a `complete` op of some driver thread; every
-// operation state / sender / the scope itself is an individual heap object freed exactly when the API says it may die
-// (nest/attach operation: inside its receiver's completion; join operation: inside the join receiver's completion;
-// the scope: in "eager" units as soon as every planned join has completed and no thread is inside or still has a direct
-// call on the scope object, in "late" units after the execution).
-#include "vrt.hpp"
+// C08 driver: executes async_scope scenarios (v2 / v1 / v0 scopes and the v2 / v1 debug_async_scope wrappers) on the real
+// code with controlled threads.  modes: guided (TLC behaviours), dfs (bounded-preemption enumeration), random (seeded).
+// The scope flavours live in scope_world.hpp and are instantiated in driver_v*.cpp (parallel compilation).
+#include "scope_world.hpp"
 
-#include <unifex/inline_scheduler.hpp>
-#include <unifex/spawn_detached.hpp>
-#include <unifex/v0/async_scope.hpp>
-#include <unifex/v1/async_scope.hpp>
-#include <unifex/v2/async_scope.hpp>
-
-#include <nlohmann/json.hpp>
-
-#include <fstream>
-#include <set>
-#include <sstream>
-
-using namespace unifex;
-using json = nlohmann::json;
-
-struct Op { std::string k; int a = 0, b = 0; };
-using Prog = std::vector<Op>;
-struct Scenario { int id = 0; int ver = 2; Prog prog[4]; int njoins = 0; int ndirect = 0; };
-
-static bool isDirect(const std::string& k) {
-  return k == "nest" || k == "join" || k == "spawn" || k == "cleanup" || k == "reqstop";
-}
-static bool isCloser(const std::string& k) { return k == "join" || k == "cleanup"; }
-
-constexpr int NW = 8, NJ = 4;
-
-// ------------------------------------------------------------------ shared bookkeeping (one logical thread at a time)
-struct WorldBase {
-  const Scenario* scn = nullptr;
-  bool eager = true;
-  int adm[NW];                 // -1 none, 0 refused, 1 admitted, 2 unknown
-  bool hasRecv[NW] = {};       // a harness receiver observes the completion (nest/attach operations)
-  bool leafStarted[NW] = {}, leafDone[NW] = {}, neverStarts[NW] = {}, fin[NW] = {}, stopSeen[NW] = {};
-  std::function<void(int)> fire[NW];
-  void* opPtr[NW] = {};
-  void (*opDel[NW])(void*) = {};
-  void* jopPtr[NJ] = {};
-  void (*jopDel[NJ])(void*) = {};
-  bool jBegun[NJ] = {}, jDone[NJ] = {};
-  int jDoneCount[NJ] = {};
-  int directRemaining = 0;
-  WorldBase() { for (auto& a : adm) a = -1; }
-  virtual ~WorldBase() {}
-  virtual void maybeFree() = 0;
-
-  static void E(const char* e, int w, int j, int r) {
-    vrt::ev("{\"e\":\"%s\",\"w\":%d,\"j\":%d,\"t\":%d,\"r\":%d}", e, w, j, vrt::self_id(), r);
-  }
-  void leafStart(int w) { E("LeafStart", w, 0, -1); }
-  void sawStop(int w) { if (!stopSeen[w]) { stopSeen[w] = true; E("StopSeen", w, 0, -1); } }
-  // completion of the harness receiver of a nest/attach operation; frees the operation (the receiver lives inside it)
-  void workDone(int w, int ch) {
-    E("WorkDone", w, 0, ch);
-    fin[w] = true;
-    if (!leafStarted[w]) neverStarts[w] = true;
-    void* p = opPtr[w]; auto d = opDel[w]; opPtr[w] = nullptr;
-    if (p) d(p);
-  }
-  void joinDone(int j, int ch) {
-    E("JoinDone", 0, j, ch);
-    jDone[j] = true; ++jDoneCount[j];
-    void* p = jopPtr[j]; auto d = jopDel[j]; jopPtr[j] = nullptr;
-    if (p) d(p);
-    maybeFree();
-  }
-  bool ledgerConsistent() const {
-    for (int w = 0; w < NW; ++w) if ((adm[w] == 1 || adm[w] == 2) && !fin[w]) return false;
-    for (int j = 0; j < NJ; ++j) if (jDoneCount[j] > 1) return false;
-    return true;
-  }
-  bool allPlannedJoinsDone() const {
-    if (scn->njoins == 0) return false;
-    int n = 0;
-    for (int j = 0; j < NJ; ++j) if (jDone[j]) ++n;
-    return n >= scn->njoins;
-  }
-  // the driver's `complete w`
-  void completeLeaf(int w) {
-    while (!(leafStarted[w] || neverStarts[w])) UNIFEX_VERIF_SPIN("scope.h.wait");
-    if (!leafStarted[w] || leafDone[w]) return;
-    leafDone[w] = true;
-    int ch = stopSeen[w] ? 1 : 0;
-    E("LeafFinish", w, 0, stopSeen[w] ? 1 : 0);
-    if (!hasRecv[w]) { E("WorkDone", w, 0, ch); fin[w] = true; }
-    fire[w](ch);
-  }
-};
-
-// ------------------------------------------------------------------ the controllable leaf sender
-template <class R>
-struct LeafOp {
-  struct Cb { WorldBase* W; int id; void operator()() noexcept { W->sawStop(id); } };
-  using ST = stop_token_type_t<R&>;
-  using CbT = typename ST::template callback_type<Cb>;
-  WorldBase* W; int id; R r;
-  manual_lifetime<CbT> cb;
-  template <class R2>
-  LeafOp(WorldBase* w, int i, R2&& rr) : W(w), id(i), r((R2&&)rr) {}
-  LeafOp(LeafOp&&) = delete;
-  void start() noexcept {
-    W->leafStart(id);
-    cb.construct(get_stop_token(r), Cb{W, id});
-    W->fire[id] = [this](int ch) { this->complete(ch); };
-    W->leafStarted[id] = true;
-  }
-  void complete(int ch) noexcept {
-    cb.destruct();
-    if (ch == 0) unifex::set_value(std::move(r)); else unifex::set_done(std::move(r));
-    // `this` is gone
-  }
-};
-// a copy of a nest sender / an lvalue connect creates a *new* work item: the harness names it through this override
-static thread_local int tl_idOverride = -1;
-struct Leaf {
-  Leaf(WorldBase* w, int i) : W(w), id(i) {}
-  Leaf(const Leaf& o) : W(o.W), id(tl_idOverride >= 0 ? tl_idOverride : o.id) {}
-  Leaf(Leaf&& o) noexcept : W(o.W), id(o.id) {}
-  template <template <class...> class Variant, template <class...> class Tuple>
-  using value_types = Variant<Tuple<>>;
-  template <template <class...> class Variant>
-  using error_types = Variant<std::exception_ptr>;
-  static constexpr bool sends_done = true;
-  static constexpr blocking_kind blocking = blocking_kind::never;
-  static constexpr bool is_always_scheduler_affine = false;
-  WorldBase* W; int id;
-  template <class R>
-  LeafOp<remove_cvref_t<R>> connect(R&& r) const {
-    return LeafOp<remove_cvref_t<R>>{W, tl_idOverride >= 0 ? tl_idOverride : id, (R&&)r};
-  }
-};
-
-struct Recv {
-  WorldBase* W; int id;
-  void set_value() && noexcept { W->workDone(id, 0); }
-  template <class Err> void set_error(Err&&) && noexcept { W->workDone(id, 2); }
-  void set_done() && noexcept { W->workDone(id, 1); }
-};
-struct JoinRecv {
-  WorldBase* W; int j;
-  void set_value() && noexcept { W->joinDone(j, 0); }
-  template <class Err> void set_error(Err&&) && noexcept { W->joinDone(j, 2); }
-  void set_done() && noexcept { W->joinDone(j, 1); }
-  friend inline_scheduler tag_invoke(tag_t<get_scheduler>, const JoinRecv&) noexcept { return {}; }
-};
-
-// ------------------------------------------------------------------ per-version API
-template <int V> struct Tr;
-template <> struct Tr<2> {
-  using Scope = unifex::v2::async_scope;
-  static auto nest(Scope& s, Leaf l) { return s.nest(std::move(l)); }
-  static auto join(Scope& s) { return s.join(); }
-  static auto cleanup(Scope& s) { return s.join(); }
-  static void reqstop(Scope&) {}
-  static void spawn(Scope& s, Leaf l) { unifex::spawn_detached(std::move(l), s); }
-};
-template <> struct Tr<1> {
-  using Scope = unifex::v1::async_scope;
-  static auto nest(Scope& s, Leaf l) { return s.attach(std::move(l)); }
-  static auto join(Scope& s) { return s.complete(); }
-  static auto cleanup(Scope& s) { return s.cleanup(); }
-  static void reqstop(Scope& s) { s.request_stop(); }
-  static void spawn(Scope& s, Leaf l) { unifex::spawn_detached(std::move(l), s); }
-};
-template <> struct Tr<0> {
-  using Scope = unifex::v0::async_scope;
-  static auto nest(Scope& s, Leaf l) { return unifex::v2::async_scope{}.nest(std::move(l)); }   // unused (v0 has no nest)
-  static auto join(Scope& s) { return s.complete(); }
-  static auto cleanup(Scope& s) { return s.cleanup(); }
-  static void reqstop(Scope& s) { s.request_stop(); }
-  static void spawn(Scope& s, Leaf l) { s.spawn(std::move(l)); }
-};
-
-template <int V>
-struct World : WorldBase {
-  using T = Tr<V>;
-  using Scope = typename T::Scope;
-  using NS = decltype(T::nest(std::declval<Scope&>(), std::declval<Leaf>()));
-  using NOp = connect_result_t<NS, Recv>;
-  using LOp = connect_result_t<const NS&, Recv>;
-  Scope* scope = new Scope();
-  NS* snd[NW] = {};
-
-  void maybeFree() override {
-    if (!eager || !scope) return;
-    if (!allPlannedJoinsDone() || directRemaining != 0) return;
-    if (!ledgerConsistent()) return;   // leave the judgement to the monitor; do not turn it into an assertion failure
-    E("ScopeFreed", 0, 0, -1);
-    delete scope; scope = nullptr;
-  }
-  void directDone() { --directRemaining; maybeFree(); }
-  bool admitted(const NS& s) { return unifex::blocking(s) != blocking_kind::always_inline; }
-
-  void doNest(int w) {
-    E("NestBegin", w, 0, -1);
-    auto* s = new NS(T::nest(*scope, Leaf{this, w}));
-    snd[w] = s; hasRecv[w] = true;
-    adm[w] = admitted(*s) ? 1 : 0;
-    E("NestEnd", w, 0, adm[w]);
-    directDone();
-  }
-  void doCopy(int w, int v) {
-    E("NestBegin", v, 0, -1);
-    tl_idOverride = v;
-    auto* s = new NS(*snd[w]);
-    tl_idOverride = -1;
-    snd[v] = s; hasRecv[v] = true;
-    adm[v] = admitted(*s) ? 1 : 0;
-    E("NestEnd", v, 0, adm[v]);
-  }
-  void doStart(int w) {
-    NS* s = snd[w]; snd[w] = nullptr;
-    E("StartBegin", w, 0, -1);
-    auto* op = new NOp(unifex::connect(std::move(*s), Recv{this, w}));
-    delete s;   // moved-from
-    opPtr[w] = op; opDel[w] = [](void* p) { delete static_cast<NOp*>(p); };
-    unifex::start(*op);
-  }
-  void doLStart(int w, int v) {
-    E("NestBegin", v, 0, -1);
-    hasRecv[v] = true;
-    tl_idOverride = v;
-    auto* op = new LOp(unifex::connect(static_cast<const NS&>(*snd[w]), Recv{this, v}));
-    tl_idOverride = -1;
-    adm[v] = 2;
-    E("NestEnd", v, 0, 2);
-    opPtr[v] = op; opDel[v] = [](void* p) { delete static_cast<LOp*>(p); };
-    unifex::start(*op);
-  }
-  void doDiscard(int w) {
-    NS* s = snd[w]; snd[w] = nullptr;
-    E("Discard", w, 0, -1);
-    fin[w] = true; neverStarts[w] = true;
-    delete s;
-  }
-  void doSpawn(int w) {
-    E("NestBegin", w, 0, -1);
-    hasRecv[w] = false;
-    T::spawn(*scope, Leaf{this, w});
-    adm[w] = leafStarted[w] ? 1 : 0;
-    if (!leafStarted[w]) neverStarts[w] = true;
-    E("NestEnd", w, 0, adm[w]);
-    directDone();
-  }
-  template <class S>
-  void startJoin(int j, S&& sender, int kind) {
-    using JOp = connect_result_t<S, JoinRecv>;
-    auto* op = new JOp(unifex::connect((S&&)sender, JoinRecv{this, j}));
-    jopPtr[j] = op; jopDel[j] = [](void* p) { delete static_cast<JOp*>(p); };
-    jBegun[j] = true;
-    E("JoinBegin", 0, j, kind);
-    unifex::start(*op);
-    E("JoinRet", 0, j, kind);
-    directDone();
-  }
-  void doJoin(int j) { startJoin(j, T::join(*scope), 0); }
-  void doCleanup(int j) { startJoin(j, T::cleanup(*scope), 1); }
-  void doReqStop() {
-    E("ReqStopBegin", 0, 0, -1);
-    T::reqstop(*scope);
-    E("ReqStopEnd", 0, 0, -1);
-    directDone();
-  }
-  void run(const Prog& p) {
-    for (auto& op : p) {
-      UNIFEX_VERIF_YIELD("scope.h.op");
-      if (op.k == "nest") { if constexpr (V != 0) doNest(op.a); }
-      else if (op.k == "copy") { if constexpr (V != 0) doCopy(op.a, op.b); }
-      else if (op.k == "start") { if constexpr (V != 0) doStart(op.a); }
-      else if (op.k == "lstart") { if constexpr (V != 0) doLStart(op.a, op.b); }
-      else if (op.k == "discard") { if constexpr (V != 0) doDiscard(op.a); }
-      else if (op.k == "spawn") doSpawn(op.a);
-      else if (op.k == "complete") completeLeaf(op.a);
-      else if (op.k == "join") doJoin(op.a);
-      else if (op.k == "cleanup") doCleanup(op.a);
-      else if (op.k == "reqstop") doReqStop();
-    }
-  }
-  // after the execution: everything still alive that may legally be destroyed
-  void finish() {
-    E("Quiescent", 0, 0, -1);
-    bool clean = ledgerConsistent();
-    for (int w = 0; w < NW; ++w) {
-      if (snd[w]) clean = false;
-      if (leafStarted[w] && !leafDone[w]) clean = false;
-    }
-    if (scope && clean && allPlannedJoinsDone()) { delete scope; scope = nullptr; }
-    // otherwise: outstanding work or an incomplete join keeps the scope (and itself) alive - leaked on purpose
-  }
-};
-
+// spec schedule point -> site name in the real code
 static bool sameSite(const std::string& want, const std::string& got) {
   if (want == "op") return got == "scope.h.op";
   if (want == "wait") return got == "scope.h.wait";
+  if (want == "dereg_wait") return got == "spin_wait";
   return got == "scope." + want;
 }
 
@@ -312,7 +19,7 @@ int main(int argc, char** argv) {
   std::string mode = a.str("mode", "guided");
   std::vector<Scenario> scns;
   { std::ifstream f(a.str("scenarios")); json j; f >> j;
-    for (auto& s : j) { Scenario sc; sc.id = s["id"].get<int>(); sc.ver = s.value("ver", 2);
+    for (auto& s : j) { Scenario sc; sc.id = s["id"].get<int>(); sc.ver = s.value("ver", 2); sc.man = s.value("man", 0);
       std::set<int> joins;
       for (int t = 1; t <= 3; ++t)
         for (auto& o : s["prog"][t - 1]) {
@@ -326,59 +33,15 @@ int main(int argc, char** argv) {
   std::map<int, const Scenario*> byId; for (auto& s : scns) byId[s.id] = &s;
   if (a.has("log")) vrt::log_open(a.str("log").c_str());
   long from = a.num("from", 0), to = a.num("to", 1L << 40);
-  long execs = 0, steps = 0, drift = 0, unguided = 0, obsMismatch = 0, units = 0;
-  std::string firstDrift, firstMismatch;
-  std::set<std::string> distinctSched;
-
-  auto runOneV = [&](auto tag, const Scenario& sc, bool eager, long x, long k,
-                     const std::function<vrt::RunResult(vrt::Ctl&)>& drive, const json* expect) {
-    constexpr int V = decltype(tag)::value;
-    vrt::ev("{\"e\":\"Reset\",\"w\":0,\"j\":0,\"t\":0,\"r\":-1,\"x\":%ld,\"k\":%ld,\"scn\":%d,\"eager\":%d}", x, k, sc.id, eager ? 1 : 0);
-    auto* w = new World<V>(); w->scn = &sc; w->eager = eager; w->directRemaining = sc.ndirect;
-    vrt::RunResult rr;
-    {
-      vrt::Ctl c; c.accept = {"scope.", "spin_wait"};
-      for (int t = 1; t <= 3; ++t) c.spawn(t, [w, t] { w->run(w->scn->prog[t]); });
-      c.start_all();
-      rr = drive(c);
-      if (rr.deadlock) {
-        std::string s = vrt::sched_json(rr);
-        vrt::ev("{\"e\":\"Deadlock\",\"w\":0,\"j\":0,\"t\":0,\"r\":-1,\"sched\":%s}", s.c_str());
-        vrt::log_flush();
-        std::fprintf(stderr, "deadlock in scenario %d schedule %s\n", sc.id, s.c_str());
-        _exit(75);
-      }
-      c.join();
+  RunCtx rc;
+  auto runOne = [&](const Scenario& sc, bool eager, long x, long k, const DriveFn& drive, const json* expect) {
+    switch (sc.ver) {
+      case 2: run_one_v2(rc, sc, eager, x, k, drive, expect); break;
+      case 1: run_one_v1(rc, sc, eager, x, k, drive, expect); break;
+      case 0: run_one_v0(rc, sc, eager, x, k, drive, expect); break;
+      case 12: run_one_v12(rc, sc, eager, x, k, drive, expect); break;
+      default: run_one_v11(rc, sc, eager, x, k, drive, expect); break;
     }
-    w->finish();
-    ++execs; steps += (long)rr.steps.size(); drift += rr.drift ? 1 : 0; unguided += rr.unguided;
-    if (rr.drift && firstDrift.empty()) firstDrift = "unit " + std::to_string(x) + ": " + rr.firstDrift;
-    distinctSched.insert(std::to_string(sc.id) + ":" + vrt::sched_json(rr));
-    if (expect) {
-      bool ok = true;
-      auto& ea = (*expect)["adm"];
-      for (size_t i = 0; i < ea.size() && i + 1 < (size_t)NW; ++i) {
-        int e = ea[i].get<int>();                 // spec: 0 none, 1 admitted, 2 refused
-        int g = w->adm[i + 1];                    // driver: -1 none, 0 refused, 1 admitted, 2 unknown
-        if (g == 2) g = w->leafStarted[i + 1] ? 1 : 0;
-        int gs = g < 0 ? 0 : (g == 1 ? 1 : 2);
-        if (e != gs) ok = false;
-      }
-      auto& ej = (*expect)["jst"];
-      for (size_t i = 0; i < ej.size() && i + 1 < (size_t)NJ; ++i) {
-        std::string e = ej[i].get<std::string>();
-        std::string g = w->jDone[i + 1] ? "done" : (w->jBegun[i + 1] ? "begun" : "none");
-        if (e != g) ok = false;
-      }
-      if (!ok) { ++obsMismatch; if (firstMismatch.empty()) firstMismatch = "unit " + std::to_string(x); }
-    }
-    delete w;
-  };
-  auto runOne = [&](const Scenario& sc, bool eager, long x, long k,
-                    const std::function<vrt::RunResult(vrt::Ctl&)>& drive, const json* expect) {
-    if (sc.ver == 2) runOneV(std::integral_constant<int, 2>{}, sc, eager, x, k, drive, expect);
-    else if (sc.ver == 1) runOneV(std::integral_constant<int, 1>{}, sc, eager, x, k, drive, expect);
-    else runOneV(std::integral_constant<int, 0>{}, sc, eager, x, k, drive, expect);
   };
 
   if (mode == "guided") {
@@ -390,7 +53,7 @@ int main(int argc, char** argv) {
       const Scenario& sc = *byId.at(b["scn"].get<int>());
       std::vector<vrt::StepRec> sched;
       for (auto& s : b["sched"]) sched.push_back({s[0].get<int>(), s[1].get<std::string>()});
-      ++units;
+      ++rc.units;
       runOne(sc, b.value("eager", 1) != 0, x, 0, [&](vrt::Ctl& c) { return vrt::run_guided(c, sched, sameSite); }, &b);
     }
   } else {
@@ -398,7 +61,7 @@ int main(int argc, char** argv) {
     { std::ifstream f(a.str("units")); json j; f >> j; for (auto& u : j) us.push_back({u[0].get<int>(), u[1].get<int>() != 0}); }
     long cap = a.num("cap", 2000); int bound = (int)a.num("bound", 2); unsigned seed = (unsigned)a.num("seed", 1);
     for (long x = from; x < to && x < (long)us.size(); ++x) {
-      const Scenario& sc = scns[us[x].scn]; bool eager = us[x].eager; ++units;
+      const Scenario& sc = scns[us[x].scn]; bool eager = us[x].eager; ++rc.units;
       if (mode == "dfs") {
         vrt::Dfs d; d.bound = bound; long k = 0;
         do { runOne(sc, eager, x, k, [&](vrt::Ctl& c) { return vrt::run_dfs(c, d); }, nullptr); ++k; } while (d.advance() && k < cap);
@@ -409,9 +72,9 @@ int main(int argc, char** argv) {
     }
   }
   vrt::log_close();
-  json s = {{"mode", mode}, {"units", units}, {"execs", execs}, {"steps", steps}, {"drift", drift}, {"unguided", unguided},
-            {"obs_mismatch", obsMismatch}, {"distinct_schedules", (long)distinctSched.size()},
-            {"first_drift", firstDrift}, {"first_mismatch", firstMismatch}};
+  json s = {{"mode", mode}, {"units", rc.units}, {"execs", rc.execs}, {"steps", rc.steps}, {"drift", rc.drift}, {"unguided", rc.unguided},
+            {"obs_mismatch", rc.obsMismatch}, {"distinct_schedules", (long)rc.distinctSched.size()},
+            {"first_drift", rc.firstDrift}, {"first_mismatch", rc.firstMismatch}};
   std::printf("%s\n", s.dump().c_str());
   return 0;
 }
